@@ -16,7 +16,14 @@ from types import SimpleNamespace as NS
 
 from . import terms
 
-TOL_EXACT = 1e-9  # figures that are exact rationals
+# Figures that are exact rationals.  The Hessian hs * H and the BHHH bs * B of the rational family reach the
+# library rounded to floats (relative error u = 1.1e-16 per entry).  For a singular hs * H the rounded matrix is
+# in general regular with smallest singular value <= sqrt(K) u sigma_max (< the cut-off K * 2.2e-16 * sigma_max of
+# scipy.linalg.pinv), so the pseudo-inverse of the rounded matrix is the one of a rank-preserving perturbation E,
+# ||E|| <= sqrt(K) u ||H||: || X~ - X || <= 3 ||X||^2 ||E|| (Wedin), X = exact pseudo-inverse.  Over the families of
+# MCResults (||X|| <= 31, ||H|| <= 1001) that is <= 1e-10 absolute, on most members 1e-14: 1e-9 relative (floor
+# 1) leaves a margin and is 25 orders of magnitude below the 1e16 that inverting the rounded matrix produces.
+TOL_EXACT = 1e-9
 TOL_PRIM = 1e-8  # figures that go through sqrt / log / Phi / chi-square quantile
 FLOAT_MAX = 1.7976931348623157e308
 
@@ -66,10 +73,18 @@ def close(got, want) -> bool:
     except (TypeError, ValueError):
         return False
     w = float(want)
-    if g != g:
+    if not math.isfinite(g):  # NaN, and infinity (inf <= tol * inf would hold)
         return False
     tol = TOL_EXACT if isinstance(want, Fraction) else TOL_PRIM
     return abs(g - w) <= tol * max(1.0, abs(g), abs(w))
+
+
+def _sq(x) -> float:
+    """x^2; a sentinel of the library (largest float) squares to infinity instead of raising"""
+    try:
+        return float(x) ** 2
+    except OverflowError:
+        return math.inf
 
 
 def is_blank(x) -> bool:
@@ -84,13 +99,53 @@ def is_blank(x) -> bool:
 
 
 # ------------------------------------------------------------------ building the real object
+def float_matrix(m, scale: Fraction = Fraction(1)):
+    """integer matrix times an exact rational scale -> floats, each entry correctly rounded"""
+    import numpy as np
+
+    return np.array([[float(Fraction(x) * scale) for x in row] for row in m], dtype=float)
+
+
+def is_rational_family(raw: dict) -> bool:
+    """does a Hessian / BHHH entry of the outcome fail to be a binary floating-point number?"""
+    def inexact(m, s):
+        s = Fraction(*s)
+        return any(Fraction(float(Fraction(x) * s)) != Fraction(x) * s for row in m for x in row)
+
+    return inexact(raw['H'], raw.get('hs', (1, 1))) or inexact(raw['B'], raw.get('bs', (1, 1)))
+
+
+def float_image(raw: dict) -> dict:
+    """Measurement for the evidence (no verdict): is the Hessian singular as a rational matrix (the rank comes
+    from the specification), and does Gaussian elimination on its floating-point image nevertheless succeed
+    (scipy.linalg.inv returns instead of raising LinAlgError)?"""
+    import warnings
+    from scipy import linalg
+
+    H = float_matrix(raw['H'], Fraction(*raw.get('hs', (1, 1))))
+    singular = raw['rankH'] < raw['K']
+    with warnings.catch_warnings():
+        warnings.simplefilter('ignore')
+        try:
+            big = float(abs(linalg.inv(H)).max())
+            regular = True
+        except linalg.LinAlgError:
+            big, regular = None, False
+    sv = linalg.svdvals(H)
+    return dict(singular=singular, float_regular=regular, inv_max=big,
+                sv_ratio=float(sv[raw['rankH']] / sv[0]) if singular and sv[0] > 0 else None)
+
+
 def build(raw: dict):
     """raw outcome (as emitted) -> biogeme.results.bioResults, through RawResults.__init__."""
     import numpy as np
     from biogeme.function_output import BiogemeFunctionOutput
     from biogeme.results import RawResults, bioResults
 
+    import warnings
+
     names = tuple(raw['names'])
+    hs, bs = Fraction(*raw.get('hs', (1, 1))), Fraction(*raw.get('bs', (1, 1)))
     opt = lambda o: float(Fraction(*o['v'])) if o['ex'] else None  # noqa: E731
     bounds = {n: (opt(lb), opt(ub)) for n, lb, ub in zip(names, raw['lb'], raw['ub'])}
     database = NS(
@@ -119,12 +174,14 @@ def build(raw: dict):
     fgHb = BiogemeFunctionOutput(
         function=float(Fraction(*raw['L'])),
         gradient=np.array(raw['g'], dtype=float),
-        hessian=np.array(raw['H'], dtype=float),
-        bhhh=np.array(raw['B'], dtype=float),
+        hessian=float_matrix(raw['H'], hs),
+        bhhh=float_matrix(raw['B'], bs),
     )
     boot = np.array(raw['boot']['r'], dtype=float) if raw['boot']['ex'] else None
     theta = [float(Fraction(*t)) for t in raw['theta']]
-    return bioResults(RawResults(model, theta, fgHb, bootstrap=boot), identification_threshold=1e-5)
+    with warnings.catch_warnings():
+        warnings.simplefilter('ignore')  # ill-conditioned matrix warnings of scipy (patched variants of the code)
+        return bioResults(RawResults(model, theta, fgHb, bootstrap=boot), identification_threshold=1e-5)
 
 
 # ------------------------------------------------------------------ resolving the spec's quantity references
@@ -250,7 +307,7 @@ def compare_stats(c: Cmp, res):
                 c.ref(f'stats:{a}', getattr(d.betas[i - 1], a), exp, F, kind, i, parameter=names[i - 1])
             st, t2 = exp.resolve(F, 't2', i)
             got_t = getattr(d.betas[i - 1], ATTR[F][1])
-            c.value(f'stats:{ATTR[F][1]}^2', float(got_t) ** 2 if st == 'ok' and got_t is not None else None, st, t2,
+            c.value(f'stats:{ATTR[F][1]}^2', _sq(got_t) if st == 'ok' and got_t is not None else None, st, t2,
                     parameter=names[i - 1])
             if S['allpos']:
                 c.value(f'stats:{corr_attr}:diagonal', corr[i - 1, i - 1], 'ok', Fraction(1), entry=[i, i])
@@ -258,7 +315,7 @@ def compare_stats(c: Cmp, res):
             for (a, b) in ((i, j), (j, i)):
                 c.ref(f'stats:{corr_attr}', corr[a - 1, b - 1], exp, F, 'corr', i, j, entry=[a, b])
             st, c2 = exp.resolve(F, 'corr2', i, j)
-            c.value(f'stats:{corr_attr}^2', float(corr[i - 1, j - 1]) ** 2 if st == 'ok' else None, st, c2, entry=[i, j])
+            c.value(f'stats:{corr_attr}^2', _sq(corr[i - 1, j - 1]) if st == 'ok' else None, st, c2, entry=[i, j])
             row = d.secondOrderTable.get((names[i - 1], names[j - 1]))
             if row is None:
                 c.bad('stats:secondOrderTable:key', got=list(map(list, d.secondOrderTable.keys())), want=[names[i - 1], names[j - 1]])
@@ -270,7 +327,7 @@ def compare_stats(c: Cmp, res):
             if tt_st == 'ok' and row[FAM_OFFSET[F] + 2] != 0:
                 # t = (theta_i - theta_j) / sqrt(var_i + var_j - 2 cov): the variance the library used
                 dth = float(Fraction(*raw['theta'][i - 1]) - Fraction(*raw['theta'][j - 1]))
-                c.value(f'stats:secondOrderTable:{F}.pairwise_variance', (dth / row[FAM_OFFSET[F] + 2]) ** 2, st, pv,
+                c.value(f'stats:secondOrderTable:{F}.pairwise_variance', _sq(dth / row[FAM_OFFSET[F] + 2]), st, pv,
                         pair=[names[i - 1], names[j - 1]])
     want_len = 12 if exp.stats['boot']['ex'] else 8
     for k, row in d.secondOrderTable.items():
@@ -467,11 +524,69 @@ def _companion_results():
     return _BUILT
 
 
+class _InvWithPinvFallback:
+    """stands for the module `linalg` inside biogeme.results: `pinv` inverts, and computes the
+    pseudo-inverse only when the inversion raises LinAlgError (everything else is scipy.linalg)"""
+
+    def __getattr__(self, name):
+        from scipy import linalg
+
+        return getattr(linalg, name)
+
+    @staticmethod
+    def pinv(a, *args, **kw):
+        from scipy import linalg
+
+        try:
+            return linalg.inv(a)
+        except linalg.LinAlgError:
+            return linalg.pinv(a, *args, **kw)
+
+
+def build_patched(raw: dict, patch: str):
+    """the real object from a PATCHED library (negative controls; call in a forked child only):
+    'inv_fallback': _calculate_stats inverts the Hessian, pseudo-inverse only as fallback on LinAlgError;
+    'bic_nobs':     _calculate_stats uses the number of observations where it reads the sample size."""
+    import biogeme.results as br
+
+    if patch == 'inv_fallback':
+        saved = br.linalg
+        br.linalg = _InvWithPinvFallback()
+        try:
+            return build(raw)
+        finally:
+            br.linalg = saved
+    if patch == 'bic_nobs':
+        original = br.bioResults._calculate_stats
+
+        def patched(self):
+            d = self.data
+            if d is None:
+                return original(self)
+            keep = d.sampleSize
+            d.sampleSize = d.numberOfObservations
+            try:
+                return original(self)
+            finally:
+                d.sampleSize = keep
+
+        br.bioResults._calculate_stats = patched
+        try:
+            return build(raw)
+        finally:
+            br.bioResults._calculate_stats = original
+    raise ValueError(patch)
+
+
+def replay_inv_fallback(rec: dict) -> dict:
+    return replay(rec, 'inv_fallback')
+
+
 def replay(rec: dict, tamper: str | None = None) -> dict:
     """-> dict(n=comparisons, skipped=..., mismatches=[...]).  `tamper` corrupts one OBSERVED field
-    of the real object before the comparison (negative control)."""
+    of the real object before the comparison, or patches the library (negative controls)."""
     exp = Expected(rec)
-    res = build(rec['raw'])
+    res = build_patched(rec['raw'], tamper) if tamper in ('inv_fallback', 'bic_nobs') else build(rec['raw'])
     if tamper == 'akaike':
         res.data.akaike += 1.0
     elif tamper == 'robust_stdErr':
@@ -485,7 +600,24 @@ def replay(rec: dict, tamper: str | None = None) -> dict:
     compare_tables(c, res)
     compare_compiled(c, results, exps)
     compare_lrt(c, results, exps)
-    return dict(n=c.n, skipped=c.skipped, mismatches=c.mismatches, digest=_digest(exp, res))
+    return dict(n=c.n, skipped=c.skipped, mismatches=c.mismatches, digest=_digest(exp, res),
+                rational=is_rational_family(rec['raw']), image=float_image(rec['raw']), cov_dev=_cov_deviation(exp, res))
+
+
+def _cov_deviation(exp: Expected, res) -> float:
+    """largest deviation |observed - exact| / max(1, |exact|) over the entries of the classical and the
+    robust covariance (measurement for the evidence: how far the tolerance is from what is observed)"""
+    worst = 0.0
+    K = exp.raw['K']
+    for F in ('cls', 'rob'):
+        m = getattr(res.data, MAT[F][0])
+        for i in range(K):
+            for j in range(K):
+                w = float(ev(exp.stats[F]['cov'][i][j]))
+                g = float(m[i, j])
+                dev = abs(g - w) / max(1.0, abs(w)) if g == g else float('inf')
+                worst = max(worst, dev)
+    return worst
 
 
 def _digest(exp: Expected, res) -> dict:
@@ -514,5 +646,7 @@ def describe(raw: dict) -> str:
     q = lambda t: str(Fraction(*t))  # noqa: E731
     o = lambda x: q(x['v']) if x['ex'] else '-'  # noqa: E731
     boot = f"{len(raw['boot']['r'])} replications {raw['boot']['r']}" if raw['boot']['ex'] else 'no bootstrap'
-    return (f"K={raw['K']} N={raw['N']} L={q(raw['L'])} L0={o(raw['L0'])} Lnull={o(raw['Ln'])} "
-            f"theta={[q(t) for t in raw['theta']]} H={raw['H']} BHHH={raw['B']} {boot}")
+    sc = lambda key: '' if tuple(raw.get(key, (1, 1))) == (1, 1) else f"{q(raw[key])} * "  # noqa: E731
+    nobs = '' if raw['nobs'] == raw['N'] else f" observations={raw['nobs']}"
+    return (f"K={raw['K']} N={raw['N']}{nobs} L={q(raw['L'])} L0={o(raw['L0'])} Lnull={o(raw['Ln'])} "
+            f"theta={[q(t) for t in raw['theta']]} H={sc('hs')}{raw['H']} BHHH={sc('bs')}{raw['B']} {boot}")
